@@ -401,3 +401,138 @@ Proof.
     apply over_true. exact E2.
   - match goal with |- context [existsb ?f ?l] => destruct (existsb f l) end; simpl; discriminate.
 Qed.
+
+(* ================================================================ adjust_moisture_content *)
+
+Definition wf_strm (n : nat) (s : strm) : Prop := length (liq s) = n /\ length (oth s) = n.
+
+Lemma wf_set_liq n s w x : wf_strm n s -> wf_strm n (set_liq s w x).
+Proof. intros [A B]. split; simpl; [rewrite upd_length|]; assumption. Qed.
+
+Lemma total_nth n s i : wf_strm n s -> nthq (total s) i == nthq (liq s) i + nthq (oth s) i.
+Proof. intros [A B]. unfold total. apply nthq_vadd. congruence. Qed.
+
+Lemma liq_set_liq s w x : liq (set_liq s w x) = upd (liq s) w x.
+Proof. reflexivity. Qed.
+Lemma oth_set_liq s w x : oth (set_liq s w x) = oth s.
+Proof. reflexivity. Qed.
+
+Lemma fmass_set_liq n mws s w x : wf_strm n s -> length mws = n -> (w < n)%nat ->
+  fmass mws (set_liq s w x) == fmass mws s + (x - nthq (liq s) w) * nthq mws w.
+Proof.
+  intros [A B] M W. unfold fmass, total. simpl.
+  rewrite !vdot_vadd by (rewrite ?upd_length; congruence).
+  rewrite vdot_upd by congruence. lra.
+Qed.
+
+(* the value of the moisture chemical's liquid-row flow after the call, and the rest *)
+Ltac moist_cases :=
+  unfold adjust_moisture, moisture_shift;
+  repeat match goal with
+  | |- context [if ?b then _ else _] => let E := fresh "E" in destruct b eqn:E
+  | |- context [match ?s with None => _ | Some _ => _ end] => destruct s
+  end; cbn [m_ret m_perm m_err].
+
+Lemma moisture_frame_lemma mws R P w mc by_mass mwc strict :
+  let m := adjust_moisture mws R P w mc by_mass mwc strict in
+  oth (m_ret m) = oth R /\ oth (m_perm m) = oth P /\
+  forall i, i <> w -> nthq (liq (m_ret m)) i = nthq (liq R) i /\ nthq (liq (m_perm m)) i = nthq (liq P) i.
+Proof.
+  cbv zeta. moist_cases; (split; [reflexivity|split; [reflexivity|]]); intros i Hi;
+    rewrite ?liq_set_liq, ?nthq_upd_other by auto; split; reflexivity.
+Qed.
+
+Lemma moisture_wf_lemma n mws R P w mc by_mass mwc strict :
+  wf_strm n R -> wf_strm n P ->
+  let m := adjust_moisture mws R P w mc by_mass mwc strict in
+  wf_strm n (m_ret m) /\ wf_strm n (m_perm m).
+Proof.
+  intros WR WP. cbv zeta. moist_cases; split; repeat apply wf_set_liq; assumption.
+Qed.
+
+(* the two flows of the moisture chemical always add up to what they were *)
+Lemma moisture_w_lemma mws R P w mc by_mass mwc strict :
+  (by_mass = true -> ~ nthq mws w == 0) ->
+  (w < length (liq R))%nat -> (w < length (liq P))%nat ->
+  let m := adjust_moisture mws R P w mc by_mass mwc strict in
+  nthq (liq (m_ret m)) w + nthq (liq (m_perm m)) w == nthq (liq R) w + nthq (liq P) w.
+Proof.
+  intros MW WR WP. cbv zeta.
+  moist_cases; rewrite ?liq_set_liq;
+    rewrite ?nthq_upd_same_lt by (rewrite ?upd_length; assumption);
+    try lra;
+    try (match goal with H : qzerob (1 - mc) = false |- _ => apply qzerob_false in H end;
+         field; repeat split; first [assumption | apply MW; reflexivity]).
+Qed.
+
+Lemma moisture_conserves_lemma n mws R P w mc by_mass mwc strict :
+  wf_strm n R -> wf_strm n P -> (w < n)%nat ->
+  (by_mass = true -> ~ nthq mws w == 0) ->
+  let m := adjust_moisture mws R P w mc by_mass mwc strict in
+  forall i, nthq (total (m_ret m)) i + nthq (total (m_perm m)) i == nthq (total R) i + nthq (total P) i.
+Proof.
+  intros WR WP W MW m i.
+  destruct (moisture_wf_lemma n mws R P w mc by_mass mwc strict WR WP) as [WR' WP'].
+  destruct (moisture_frame_lemma mws R P w mc by_mass mwc strict) as (OR & OP & FR).
+  fold m in WR', WP', OR, OP, FR.
+  rewrite (total_nth n (m_ret m)), (total_nth n (m_perm m)), (total_nth n R), (total_nth n P) by assumption.
+  rewrite OR, OP.
+  destruct (Nat.eq_dec i w) as [->|Hi].
+  - pose proof (moisture_w_lemma mws R P w mc by_mass mwc strict MW) as H.
+    destruct WR as [WR1 _], WP as [WP1 _]. rewrite WR1, WP1 in H. specialize (H W W).
+    cbv zeta in H. fold m in H. lra.
+  - destruct (FR i Hi) as [A B]. rewrite A, B. lra.
+Qed.
+
+Definition water_target (mws : vec) (R : strm) (w : nat) (mc mw : Q) : Q :=
+  (fmass mws R - mw * nthq (total R) w) * mc / (1 - mc) / mw.
+
+(* flows of the moisture chemical after the transfer *)
+Lemma moisture_shift_values n mws R P w mc (by_mass : bool) mwc :
+  wf_strm n R -> wf_strm n P -> (w < n)%nat -> ~ 1 - mc == 0 ->
+  let mw := if by_mass then nthq mws w else mwc in
+  ~ mw == 0 ->
+  let change := water_target mws R w mc mw - nthq (total R) w in
+  let RP := moisture_shift mws R P w mc by_mass mwc in
+  nthq (liq (fst RP)) w == nthq (liq R) w + change /\
+  nthq (liq (snd RP)) w == nthq (liq P) w - change /\
+  fst RP = set_liq R w (nthq (liq (fst RP)) w) /\ snd RP = set_liq P w (nthq (liq (snd RP)) w).
+Proof.
+  intros [WR1 WR2] [WP1 WP2] W MC mw MW change RP.
+  unfold RP, moisture_shift, change, water_target, mw in *. clear RP change.
+  destruct by_mass; cbn [fst snd]; rewrite !liq_set_liq;
+    rewrite !nthq_upd_same_lt by (rewrite ?upd_length; lia).
+  - repeat split; try reflexivity; field; split; assumption.
+  - repeat split; try reflexivity; field; split; assumption.
+Qed.
+
+Lemma moisture_reached_lemma n mws R P w mc (by_mass : bool) mwc strict :
+  wf_strm n R -> wf_strm n P -> length mws = n -> (w < n)%nat ->
+  ~ 1 - mc == 0 ->
+  let mw := if by_mass then nthq mws w else mwc in
+  0 < mw -> nthq mws w == mw ->
+  let target := water_target mws R w mc mw in
+  target - nthq (total R) w <= nthq (liq P) w ->
+  let m := adjust_moisture mws R P w mc by_mass mwc strict in
+  m_err m = None /\
+  nthq (total (m_ret m)) w == target /\
+  nthq (total (m_ret m)) w * mw == mc * fmass mws (m_ret m).
+Proof.
+  intros WR WP LM W MC mw MWpos MWeq target ENOUGH m.
+  assert (MW0 : ~ mw == 0) by lra.
+  destruct (moisture_shift_values n mws R P w mc by_mass mwc WR WP W MC MW0) as (VR & VP & SR & SP).
+  fold mw in VR, VP. fold target in VR, VP.
+  unfold m, adjust_moisture.
+  destruct (qzerob (1 - mc)) eqn:E; [apply qzerob_true in E; contradiction|].
+  destruct (moisture_shift mws R P w mc by_mass mwc) as [R1 P1] eqn:ES. cbn [fst snd] in *.
+  destruct (qltb (nthq (liq P1) w) 0) eqn:E1; [apply qltb_true in E1; lra|].
+  cbn [m_err m_ret]. split; [reflexivity|].
+  assert (T : nthq (total R1) w == target).
+  { rewrite SR. rewrite (total_nth n) by (apply wf_set_liq; exact WR).
+    rewrite liq_set_liq, oth_set_liq. destruct WR as [WR1 WR2].
+    rewrite nthq_upd_same_lt by lia. rewrite VR.
+    rewrite (total_nth n R) by (split; assumption). lra. }
+  split; [exact T|].
+  rewrite SR at 2. rewrite (fmass_set_liq n) by assumption.
+  rewrite T, VR, MWeq. unfold target, water_target. field. split; assumption.
+Qed.
